@@ -462,7 +462,7 @@ def rule_G(ctx):
             return True, thunk()
         except orders.Unsupported as ex:
             raise shape_error('Track.%s not interpretable: %s' % (fq, ex), ctx.prog.func(TRACK + '.' + fq).loc())
-        except (IndexError, KeyError, TypeError, AttributeError, ValueError, ZeroDivisionError, orders.Raised, RecursionError) as ex:
+        except orders.PROGRAM_ERRORS as ex:
             return False, '%s: %s' % (type(ex).__name__, str(ex)[:160])
 
     def check_result(op, fq, src_times, args_txt, src, before, res, want, carries=True):
